@@ -51,6 +51,29 @@ Oracles (clause of the statement -> oracle)
   C03/dispatch       method name -> function ('kendall' == 'tau-b'), sigma_k forwarded to the whitened measures, unknown
                      names raise ValueError.
 
+Dimension sweeps (tools/SWEEP_BRIEF.md; same clauses, inputs varied along further dimensions; domains named '...[...]', C03/scale,
+C03/purity, C03/fresh-interpreter)
+  sizes             definition / whitened / Bures oracles on 12 (thorough: 16, 20) conditions and stacks of up to 7 RDMs.
+  repeated RDMs     stacks in which an RDM occurs several times and in another order (case keys rows1 / rows2).
+  units  C03/scale  every measure is by its definition unchanged when either RDM is multiplied by a positive number (squared Bures
+                    metric: multiplied by c when both are), the whitened ones also when sigma_k is: stacks times 1e-26 .. 1e12,
+                    sigma_k times 1e-12 .. 1e12, against the definition on the unscaled stacks; the structural oracles (symmetry, self,
+                    range, permutation) on stacks in such units (case keys scale1 / scale2 / sigma_scale; the metric is judged in the
+                    units of the RDMs).
+  typed data        input-forms oracle with uint8 / int8 / int16 / int32 stacks over the whole range of the type, float32 (multiples
+                    of 1/4; tolerance 1e-5), bool (0/1 RDMs), stacks of two different dtypes, sigma_k as int64 / uint8 vector, int64
+                    matrix, float32 matrix; all pairs of weak orders of 3 / 4 entries as uint8 / int16 / float32 levels.  Expected: the
+                    definition on the same values as float64.
+  labels            RDMs objects whose str rdm / pattern descriptors sort in the reverse of the stack order; RDMs objects built from
+                    square matrices (forms of the input-forms oracle).
+  call sequences    C03/purity: inputs (arrays, RDMs objects, sigma_k) bitwise unchanged; the identical call again is bitwise equal;
+                    other stacks of the same shape give their own measures; a result held by the caller is not changed by later calls
+                    and overwriting it does not change later results.
+  environment       C03/fresh-interpreter: new interpreters with other PYTHONHASHSEEDs give the definition's values (and this
+                    process's numbers to 1e-12).
+  not applicable    competitor sets (no optimality claim), files / dict order, remainders.  Not demanded: RDM stacks or sigma_k as
+                    Python lists / tuples (the statement speaks of arrays and RDMs objects; compare raises AttributeError for them).
+
 Interpretation notes (where the statement is silent or over-general, the oracle does NOT demand anything)
   * a measure whose definition is 0/0 (zero vector for cosine, constant vector for the correlations, one entry for the
     Kendall measures) is not checked; such rows are not generated except in the exhaustive rank domain, where the
@@ -69,15 +92,21 @@ NOT covered by this tier
     fit the time budget); in quick mode the 6-entry domain subsamples the second weak order (strides in the domain string),
     only thorough mode enumerates it completely. Pairs of weak orders of <= 4 entries (quick) / <= 5 entries (thorough)
     are complete.
-  * float32 inputs (results are float32 for some measures; the statement does not fix a precision).
+  * float32 inputs beyond a tolerance of 1e-5 on exactly representable values (results are float32 for some measures; the
+    statement does not fix a precision); float16.
 
 Findings (own input_class each, see C03_findings.md):
   sigma_k-vector (whitened / sigma-forms; present up to /repo 479ab603, repaired by /repo 3bf72402),
   degenerate-row-in-stack (degenerate-row; open), int-dtype,cosine (input-forms; open).
+  PENDING TRIAGE (registrations behind `if False:` in the domain C03/input-forms[typed]):
+  uint-dtype,bures  compare(uint8 / uint16 stacks, 'bures' | 'bures_metric') silently returns wrong numbers (`-vector / 2` wraps around
+                    for unsigned integers);  bool-dtype,bures  the same call with bool (0/1 categorical) RDMs raises TypeError.
 """
 import functools
 import itertools
+import json
 import math
+import os
 import warnings
 
 import numpy as np
@@ -139,6 +168,25 @@ def _row(rs, kind, n_cond):
         n_ch = max(1, n_cond // 2) if kind == 'euclid-lowrank' else n_cond + 1
         x = rs.randn(n_cond, n_ch) * (0.5 + rs.rand())
         return np.array([float(np.sum((x[i] - x[j]) ** 2)) for i, j in _pairs(n_cond)])
+    # ---- integer-valued / exactly float32-representable kinds for the typed-data sweeps --------------------------------
+    if kind == 'u8':            # the whole range of uint8: products and sums overflow when computed in the input dtype
+        return rs.randint(0, 256, nd).astype(float)
+    if kind == 'i8':
+        return rs.randint(-128, 128, nd).astype(float)
+    if kind == 'i16':           # squares overflow int16 (and sums of squares int32 for i32)
+        return rs.randint(-32000, 32001, nd).astype(float)
+    if kind == 'i32':
+        return rs.randint(-2 ** 31 + 1, 2 ** 31 - 1, nd).astype(float)
+    if kind == 'quarter':       # multiples of 1/4, exactly representable in float32 (and float16)
+        return rs.randint(-40, 41, nd) / 4.0
+    if kind == 'euclid-int':    # squared distances of integer lattice points: Euclidean-embeddable AND integer (<= 4*16 = 64)
+        x = rs.randint(-2, 3, (n_cond, 4))
+        return np.array([float(np.sum((x[i] - x[j]) ** 2)) for i, j in _pairs(n_cond)])
+    if kind == 'categorical':   # 0 within / 1 between the groups of a partition in >= 2 groups (embeddable: scaled one-hot points)
+        g = rs.randint(0, 3, n_cond)
+        g[0], g[-1] = 0, 1
+        g = g[rs.permutation(n_cond)]
+        return np.array([float(g[i] != g[j]) for i, j in _pairs(n_cond)])
     raise ValueError(kind)
 
 
@@ -186,6 +234,14 @@ def _sigma(rs, skind, n_cond):
         sd = np.linspace(0.6, 2.0, n_cond)
         s = 0.8 ** np.abs(idx[:, None] - idx[None, :]) * np.outer(sd, sd)
         return s, s.copy()
+    if skind == 'vector-int':       # integer-valued variances (cast to an integer dtype by the oracle)
+        v = rs.randint(1, 6, n_cond).astype(float)
+        v[0], v[-1] = 1.0, 5.0
+        return v, np.diag(v)
+    if skind == 'matrix-int':       # integer-valued SPD matrix W W' + I
+        w = rs.randint(-2, 3, (n_cond, n_cond + 2)).astype(float)
+        s = w @ w.T + np.eye(n_cond)
+        return s, s.copy()
     raise ValueError(skind)
 
 
@@ -199,8 +255,8 @@ def _permute_sigma(sig, perm):
 
 
 def _sigma_class(skind):
-    return {'none': 'sigma_k-none', 'vector': 'sigma_k-vector', 'vector-constant': 'sigma_k-vector-constant'}.get(
-        skind, 'sigma_k-matrix')
+    return {'none': 'sigma_k-none', 'vector': 'sigma_k-vector', 'vector-constant': 'sigma_k-vector-constant',
+            'vector-int': 'sigma_k-vector'}.get(skind, 'sigma_k-matrix')
 
 
 def _has_ties(stack):
@@ -362,11 +418,24 @@ def _spec_v(n_cond, s):
     return v
 
 
+def _one_blas_thread(n):
+    """numpy's threaded LAPACK needs about 1 s per solve for n >= 100 on this machine (thread start-up), one thread 0.3 ms: same numbers"""
+    if n >= 80:
+        try:
+            from threadpoolctl import threadpool_limits
+            return threadpool_limits(limits=1)
+        except ImportError:
+            pass
+    import contextlib
+    return contextlib.nullcontext()
+
+
 def _spec_whitened(x, y, v, centre):
     x = np.array(_centre(x) if centre else x, dtype=float)
     y = np.array(_centre(y) if centre else y, dtype=float)
-    vx = np.linalg.solve(v, x)
-    vy = np.linalg.solve(v, y)
+    with _one_blas_thread(len(x)):
+        vx = np.linalg.solve(v, x)
+        vy = np.linalg.solve(v, y)
     den = float(x @ vx) * float(y @ vy)
     if not den > 0:
         return None
@@ -477,6 +546,17 @@ def _build(case):
     a = _stack(rs, case['kind'], case['n1'], n_cond)
     b = _stack(rs, case.get('kind2', case['kind']), case['n2'], n_cond)
     sig, s = _sigma(rs, case.get('sigma', 'none'), n_cond)
+    # ---- optional sweep keys (absent in the original cases) --------------------------------------------------------
+    if 'rows1' in case:         # stacks with REPEATED RDMs / another order: row k of the stack is row rows[k] of the seeded one
+        a = a[np.array(case['rows1'], dtype=int)]
+    if 'rows2' in case:
+        b = b[np.array(case['rows2'], dtype=int)]
+    if 'scale1' in case:        # the same RDMs in other units
+        a = a * case['scale1']
+    if 'scale2' in case:
+        b = b * case['scale2']
+    if 'sigma_scale' in case and sig is not None:
+        sig, s = sig * case['sigma_scale'], s * case['sigma_scale']
     return a, b, sig, s
 
 
@@ -548,6 +628,10 @@ def orc_rank_exhaustive(case):
     bb = np.array([wo[k] for k in sel])
     a_r = np.array(case['a'])
     a, b = _values(a_r)[None, :], _values(bb)
+    a_in, b_in = a, b
+    if case.get('dtype'):       # typed data: the dense levels 0..n-1 themselves in the given dtype (spec: on the float64 values)
+        a, b = a_r[None, :].astype(float), bb.astype(float)
+        a_in, b_in = a_r[None, :].astype(case['dtype']), bb.astype(case['dtype'])
     tot = n * (n - 1) // 2
     nb = len(bb)
     want = np.full((1, nb), np.nan)
@@ -592,16 +676,18 @@ def orc_rank_exhaustive(case):
         want[0] = np.add.reduceat(colsum, starts) / (lens * len(ta))
     else:
         raise ValueError(m)
-    got = _call(m, a, b)
-    r = _diff(got, want, TOL, f'{m}, a={a[0].tolist()} against all weak orders of {n} entries (column = index in the stack)')
+    tol_ = 1e-5 if case.get('dtype') in ('float32', 'float16') else TOL
+    got = _call(m, a_in, b_in)
+    r = _diff(got, want, tol_, f'{m}{" [" + case["dtype"] + "]" if case.get("dtype") else ""}, a={a[0].tolist()} against all weak '
+                              f'orders of {n} entries (column = index in the stack)')
     if r:
-        bad = np.argwhere(~np.isnan(want[0]) & ~(np.abs(np.asarray(got, float)[0] - np.nan_to_num(want[0])) <= TOL))
+        bad = np.argwhere(~np.isnan(want[0]) & ~(np.abs(np.asarray(got, float)[0] - np.nan_to_num(want[0])) <= tol_))
         j = int(bad[0][0]) if len(bad) else 0
         return r + f'; first failing b={b[j].tolist()}'
     # the stack the other way round: column vector of the same numbers
     if case.get('swap'):
-        got2 = _call(m, b, a)
-        r = _diff(got2, want.T, TOL, f'{m}, all weak orders of {n} entries against a={a[0].tolist()}')
+        got2 = _call(m, b_in, a_in)
+        r = _diff(got2, want.T, tol_, f'{m}, all weak orders of {n} entries against a={a[0].tolist()}')
         if r:
             return r
     return None
@@ -700,11 +786,13 @@ def orc_self(case):
     tol = _tol(m, sig)
     d = np.diag(np.asarray(_call(m, a, a, sig), float))
     want = 0.0 if m == 'bures_metric' else 1.0
+    unit = float(case.get('scale1', 1.0)) if m == 'bures_metric' else 1.0      # the metric is in the units of the RDMs
+    d = d / unit
     if not np.all(np.abs(d - want) <= tol):
         k = int(np.argmax(np.abs(d - want)))
         return f'{m}: RDM {k} ({a[k].tolist()}) compared with itself gives {d[k]!r}, expected {want}'
     # also as a single RDM against itself (1x1 result)
-    one = np.asarray(_call(m, a[:1], a[:1], sig), float)
+    one = np.asarray(_call(m, a[:1], a[:1], sig), float) / unit
     if one.shape != (1, 1) or not abs(one[0, 0] - want) <= tol:
         return f'{m}: single RDM with itself gives {one.tolist()}, expected [[{want}]]'
     return None
@@ -715,8 +803,9 @@ def orc_range(case):
     a, b, sig, _ = _build(case)
     m = case['method']
     tol = _tol(m, sig)
+    unit = max(float(case.get('scale1', 1.0)), float(case.get('scale2', 1.0))) if m == 'bures_metric' else 1.0   # units of the RDMs
     for x, y, nm in ((a, b, 'compare(A,B)'), (a, a, 'compare(A,A)')):
-        r = np.asarray(_call(m, x, y, sig), float)
+        r = np.asarray(_call(m, x, y, sig), float) / unit
         if np.isnan(r).any():
             return f'{m}: {nm} contains NaN for non-degenerate RDMs: {r.tolist()}'
         lo, hi = (0.0, np.inf) if m == 'bures_metric' else ((0.0, 1.0) if m == 'bures' else (-1.0, 1.0))
@@ -747,8 +836,20 @@ def orc_input_forms(case):
     m = case['method']
     tol = _tol(m, sig)
     dtype = case.get('dtype', 'float64')
+    dtype2 = case.get('dtype2', dtype)          # mixed stacks: the second one in another dtype
     if dtype != 'float64':
-        a, b = a.astype(dtype), b.astype(dtype)
+        a = a.astype(dtype)
+    if dtype2 != 'float64':
+        b = b.astype(dtype2)
+    if 'sigma_dtype' in case and sig is not None:       # typed sigma_k; it stands for exactly the values it holds
+        sig = sig.astype(case['sigma_dtype'])
+        s = np.diag(sig.astype(float)) if sig.ndim == 1 else sig.astype(float)
+    if 'float32' in (dtype, dtype2) or 'float16' in (dtype, dtype2):
+        tol = max(tol, 1e-5)    # the statement fixes no precision: float32 data only to 1e-5 (values are exact in float32)
+    if dtype2 != dtype:
+        dtype = f'{dtype} x {dtype2}'
+    if 'sigma_dtype' in case:
+        dtype += f', sigma_k {case["sigma_dtype"]}'
     if m in BURES:
         want = _spec_matrix(m, a, b)
     elif m in WHITENED:
@@ -758,6 +859,24 @@ def orc_input_forms(case):
 
     def objs(x):
         return RDMs(x.copy(), dissimilarity_measure='test', rdm_descriptors={'i': list(range(len(x)))})
+
+    def objs_labelled(x):
+        # str labels whose sorted order is the REVERSE of the stack / condition order: the (i,j) entry follows the position
+        # in the stack, and the conditions are paired by position, whatever the descriptors say
+        n_cond_ = _n_cond_of(x.shape[1])
+        return RDMs(x.copy(), dissimilarity_measure='test',
+                    rdm_descriptors={'name': ['m%02d' % (len(x) - k) for k in range(len(x))], 'i': [7] * len(x)},
+                    pattern_descriptors={'cond': ['c%02d' % (n_cond_ - k) for k in range(n_cond_)],
+                                         'index': list(range(n_cond_))[::-1]})
+
+    def objs_square(x):
+        # the same RDMs handed to the RDMs constructor as square matrices
+        n_cond_ = _n_cond_of(x.shape[1])
+        sq = np.zeros((len(x), n_cond_, n_cond_), dtype=x.dtype)
+        for r_ in range(len(x)):
+            for k_, (i_, j_) in enumerate(_pairs(n_cond_)):
+                sq[r_, i_, j_] = sq[r_, j_, i_] = x[r_, k_]
+        return RDMs(sq)
 
     def view(x):
         wide = np.zeros((x.shape[0], 2 * x.shape[1]), dtype=x.dtype)
@@ -769,7 +888,10 @@ def orc_input_forms(case):
 
     forms = [('ndarray x ndarray', a.copy(), b.copy()), ('RDMs x RDMs', objs(a), objs(b)), ('RDMs x ndarray', objs(a), b.copy()),
              ('ndarray x RDMs', a.copy(), objs(b)), ('strided view x view', view(a), view(b)),
-             ('Fortran-ordered x RDMs', fort(a), objs(b))]
+             ('Fortran-ordered x RDMs', fort(a), objs(b)),
+             ('RDMs with str descriptors in reverse order x RDMs', objs_labelled(a), objs(b)),
+             ('ndarray x RDMs with str descriptors in reverse order', a.copy(), objs_labelled(b)),
+             ('RDMs built from square matrices x ndarray', objs_square(a), b.copy())]
     for nm, x, y in forms:
         r = _diff(_call(m, x, y, sig), want, tol, f'{m} [{dtype}] {nm}')
         if r:
@@ -821,6 +943,161 @@ def orc_sequence(case):
         if r:
             return r
         history.append(m)
+    return None
+
+
+@oracle('C03/scale')
+def orc_scale(case):
+    """the same RDMs in other units: every measure named by the statement is, by its definition, unchanged when either RDM is
+    multiplied by a positive number (the squared Bures metric: multiplied by c when BOTH are multiplied by c), and the
+    whitened measures are unchanged when sigma_k is multiplied by a positive number (V is multiplied by its square).
+    Expected value: the definition evaluated on the UNSCALED stacks."""
+    base = {k: v for k, v in case.items() if k not in ('scale1', 'scale2', 'sigma_scale')}
+    a, b, sig, s = _build(base)
+    m = case['method']
+    sa, sb, sc = case.get('scale1', 1.0), case.get('scale2', 1.0), case.get('sigma_scale', 1.0)
+    want = _spec_matrix(m, a, b, s if m in WHITENED else None)
+    sig_in = None if sig is None else sig * sc
+    for direct in (False, True):
+        got = _call(m, a * sa, b * sb, sig_in, direct=direct)
+        sg_txt = '' if sig is None else ', sigma_k=%s in units of %g' % (case.get('sigma'), sc)
+        what = (f"{'compare_* function' if direct else 'compare'} method={m}: first stack in units of {sa:g}, second in units of "
+                f"{sb:g}{sg_txt}, against the definition on the stacks in units of 1")
+        if m == 'bures_metric':
+            if sa != sb:
+                raise ValueError('bures_metric: equal scales only')
+            got = np.asarray(got, dtype=float) / sa
+            what += ' (squared Bures metric divided by the common unit)'
+        r = _diff(got, want, _tol(m, sig), what)
+        if r:
+            return r
+    return None
+
+
+def _snapshot(obj):
+    if obj is None:
+        return None
+    if isinstance(obj, np.ndarray):
+        return ('ndarray', obj.dtype.str, obj.shape, obj.tobytes())
+    d = obj.dissimilarities
+    return ('RDMs', d.dtype.str, d.shape, d.tobytes(), obj.n_rdm, obj.n_cond,
+            json.dumps(obj.rdm_descriptors, sort_keys=True, default=lambda t: np.asarray(t).tolist()),
+            json.dumps(obj.pattern_descriptors, sort_keys=True, default=lambda t: np.asarray(t).tolist()))
+
+
+@oracle('C03/purity')
+def orc_purity(case):
+    """call sequences.  The value of compare(A, B) is a function of the VALUES of A, B (and sigma_k) alone, hence:
+    the inputs are unchanged by the call; the same call again gives the identical matrix; a call on other stacks of the same
+    shape gives THEIR measures (no result remembered by shape); a matrix the caller holds is not changed by later calls, and
+    writing into it does not change what later calls return."""
+    from rsatoolbox.rdm import RDMs
+    a0, b0, sig0, s = _build(case)
+    a1, b1, _, _ = _build(dict(case, seed=case['seed'] + 500))       # same shapes, other content
+    m, form = case['method'], case['form']
+    tol = _tol(m, sig0)
+
+    def wrap(x, y):
+        if form == 'rdms':
+            return RDMs(x.copy(), rdm_descriptors={'i': list(range(len(x)))}), RDMs(y.copy())
+        if form == 'mixed':
+            return x.copy(), RDMs(y.copy())
+        return x.copy(), y.copy()
+
+    a, b = wrap(a0, b0)
+    sig = None if sig0 is None else sig0.copy()
+    before = (_snapshot(a), _snapshot(b), _snapshot(sig))
+    want0 = _spec_matrix(m, a0, b0, s if m in WHITENED else None)
+    r1 = _call(m, a, b, sig)
+    r = _diff(r1, want0, tol, f'[{form}] {m} first call')
+    if r:
+        return r
+    if (_snapshot(a), _snapshot(b), _snapshot(sig)) != before:
+        which = [nm for nm, x, y in zip(('first stack', 'second stack', 'sigma_k'), (_snapshot(a), _snapshot(b), _snapshot(sig)), before)
+                 if x != y]
+        return f'[{form}] {m}: the call changed its inputs: {which}'
+    held = np.array(r1, dtype=float, copy=True)
+    r2 = _call(m, a, b, sig)
+    if not np.array_equal(np.asarray(r2, dtype=float), held, equal_nan=True):
+        return (f'[{form}] {m}: the same call on the same objects gives another result the second time: '
+                f'{np.asarray(r2).tolist()} after {held.tolist()}')
+    # other content, same shapes (the SAME sigma_k object)
+    a_, b_ = wrap(a1, b1)
+    r3 = _call(m, a_, b_, sig)
+    r = _diff(r3, _spec_matrix(m, a1, b1, s if m in WHITENED else None), tol,
+              f'[{form}] {m} on other stacks of the same shape, right after a call on the first ones')
+    if r:
+        return r
+    if not np.array_equal(np.asarray(r1, dtype=float), held, equal_nan=True):
+        return f'[{form}] {m}: the matrix returned by the first call changed when compare was called again on other stacks'
+    # the caller overwrites what it was given; the library must not have kept that array
+    try:
+        np.asarray(r1)[...] = 99.0
+        np.asarray(r3)[...] = -99.0
+    except (ValueError, TypeError):
+        pass                    # a read-only result cannot be corrupted
+    r4 = _call(m, a, b, sig)
+    if not np.array_equal(np.asarray(r4, dtype=float), held, equal_nan=True):
+        return (f'[{form}] {m}: after the caller overwrote the returned matrices, the same call gives {np.asarray(r4).tolist()} '
+                f'instead of {held.tolist()}')
+    if (_snapshot(a), _snapshot(b), _snapshot(sig)) != before:
+        return f'[{form}] {m}: the inputs changed in the course of the later calls'
+    return None
+
+
+_CHILD = r"""
+import json, sys, warnings
+import numpy as np
+warnings.simplefilter('ignore')
+from rsatoolbox.rdm import compare, RDMs
+job = json.load(sys.stdin)
+a, b = np.array(job['a'], dtype=float), np.array(job['b'], dtype=float)
+sig = None if job['sigma'] is None else np.array(job['sigma'], dtype=float)
+out = {}
+with np.errstate(all='ignore'):
+    for m in job['methods']:
+        kw = dict(sigma_k=sig) if m in ('cosine_cov', 'corr_cov') else {}
+        out[m] = [np.asarray(compare(a, b, method=m, **kw), dtype=float).tolist(),
+                  np.asarray(compare(RDMs(a), RDMs(b), method=m, **kw), dtype=float).tolist()]
+json.dump(out, sys.stdout)
+"""
+
+
+@oracle('C03/fresh-interpreter')
+def orc_fresh_interpreter(case):
+    """environment: new interpreters started with other PYTHONHASHSEEDs return the measures of the definition (and the very
+    numbers this process gets) for the same stacks"""
+    import subprocess
+    import sys
+    a, b, sig, s = _build(case)
+    methods = [m for m in list(SIMILARITIES) + ['bures_metric'] if m != 'tau-b']
+    job = json.dumps(dict(a=a.tolist(), b=b.tolist(), sigma=None if sig is None else sig.tolist(), methods=methods))
+    procs = []
+    for hs in case['hashseeds']:
+        env = dict(os.environ, PYTHONHASHSEED=str(hs), MPLBACKEND='Agg')
+        procs.append((hs, subprocess.Popen([sys.executable, '-c', _CHILD], stdin=subprocess.PIPE, stdout=subprocess.PIPE,
+                                           stderr=subprocess.PIPE, env=env, text=True)))
+    outs = []
+    for hs, p in procs:
+        try:
+            o, e = p.communicate(job, timeout=240)
+        except subprocess.TimeoutExpired:
+            p.kill()
+            return f'PYTHONHASHSEED={hs}: the new interpreter did not finish within 240 s'
+        if p.returncode != 0:
+            return f'PYTHONHASHSEED={hs}: the new interpreter failed: {e.strip().splitlines()[-1:] }'
+        outs.append((hs, json.loads(o)))
+    for m in methods:
+        want = _spec_matrix(m, a, b, s if m in WHITENED else None)
+        here = np.asarray(_call(m, a, b, sig), dtype=float)
+        for hs, o in outs:
+            for form, got in zip(('ndarray', 'RDMs'), o[m]):
+                r = _diff(np.array(got, dtype=float), want, _tol(m, sig), f'{m} [{form}] in a new interpreter with PYTHONHASHSEED={hs}')
+                if r:
+                    return r
+                if not close(np.array(got, dtype=float), here, 1e-12):
+                    return (f'{m} [{form}]: a new interpreter with PYTHONHASHSEED={hs} returns {got}, this process '
+                            f'(PYTHONHASHSEED={os.environ.get("PYTHONHASHSEED")}) {here.tolist()}')
     return None
 
 
@@ -1133,6 +1410,214 @@ def tier_c(run, thorough):
             bd.check(orc_dispatch, case, 'known-method', function='compare')
     for bad in ('Cosine', 'cosine ', '', 'tau_a', 'tau-c', 'pearson', 'rho_a', 'cosine-cov', 'kendall-tau'):
         bd.check(orc_dispatch, dict(seed=9901, n_cond=4, n1=1, n2=2, kind='real', bad=bad), 'unknown-method', function='compare')
+    bd.done()
+    bds.append(bd)
+
+    # =================================================================================================================
+    # dimension sweeps (tools/SWEEP_BRIEF.md): the same clauses along dimensions the domains above do not vary
+    # =================================================================================================================
+    ALL = [m for m in list(SIMILARITIES) + ['bures_metric'] if m != 'tau-b']
+
+    # ---- sizes (more conditions / larger stacks than above) and stacks with REPEATED RDMs -------------------------------------
+    big = ((12, 4, 5), (20, 5, 7), (20, 7, 1), (16, 1, 6)) if thorough else ((12, 4, 5),)
+    bd = Bounded(run, 'C03/definition[sizes, repeated RDMs]', 'C03/compare/oracle/definition-plain-measures',
+                 'plain measures %s on (conditions, stack sizes) %s, value kinds real / ties%s; and stacks on 5 conditions in which '
+                 'RDMs occur repeatedly and in another order (rows [0,1,0] x [1,1,0,1] and [1,0,1,1] x [0,0] of seeded 2 x 2 stacks)'
+                 % (PLAIN, big, ' / fewties / binary' if thorough else ''), function='compare')
+    for n_cond, n1, n2 in big:
+        for ki, kind in enumerate(('real', 'ties', 'fewties', 'binary') if thorough else ('real', 'ties')):
+            for m in PLAIN:
+                if m == 'tau-b' and not thorough:
+                    continue
+                bd.check(orc_definition, dict(seed=11000 + 10 * n_cond + ki, n_cond=n_cond, n1=n1, n2=n2, kind=kind, method=m),
+                         'many-conditions', function=FUNC[m])
+    for ri, (rows1, rows2) in enumerate((([0, 1, 0], [1, 1, 0, 1]), ([1, 0, 1, 1], [0, 0]))):
+        for ki, kind in enumerate(('real', 'ties')):
+            for m in PLAIN:
+                if m == 'tau-b':
+                    continue
+                bd.check(orc_definition, dict(seed=11500 + 10 * ri + ki, n_cond=5, n1=2, n2=2, kind=kind, method=m, rows1=rows1, rows2=rows2),
+                         'repeated-rdms', function=FUNC[m])
+    bd.done()
+    bds.append(bd)
+
+    wbig = (12, 16) if thorough else (12,)
+    bd = Bounded(run, 'C03/whitened[sizes, repeated RDMs]', 'C03/compare/oracle/whitened-vs-literal-V',
+                 'cosine_cov / corr_cov against the literal V on %s conditions (stacks 3 x 2), sigma_k none / vector / wishart / ar1; and '
+                 'stacks on 5 conditions with repeated RDMs (rows [0,1,0] x [1,1,0,1])' % (wbig,), function='_cosine_cov_weighted')
+    for n_cond in wbig:
+        for gi, sg in enumerate(('none', 'vector', 'wishart', 'ar1')):
+            for m in WHITENED:
+                bd.check(orc_whitened, dict(seed=12000 + 10 * n_cond + gi, n_cond=n_cond, n1=3, n2=2, kind='real', sigma=sg, method=m),
+                         _sigma_class(sg) + ',many-conditions',
+                         function='_cosine_cov_weighted_slow' if sg != 'none' else '_cov_weighting')
+    for gi, sg in enumerate(('none', 'vector', 'wishart')):
+        for m in WHITENED:
+            bd.check(orc_whitened, dict(seed=12500 + gi, n_cond=5, n1=2, n2=2, kind='real', sigma=sg, method=m, rows1=[0, 1, 0],
+                                        rows2=[1, 1, 0, 1]), 'repeated-rdms', function='_cosine_cov_weighted')
+    bd.done()
+    bds.append(bd)
+
+    bbig = (10, 12, 16) if thorough else (12,)
+    bd = Bounded(run, 'C03/bures[sizes, repeated RDMs]', 'C03/compare/oracle/bures-vs-sqrtm',
+                 'Bures similarity / metric on %s conditions (full-rank and rank-deficient embeddings, stacks 2 x 3) and on 5 conditions with '
+                 'repeated RDMs' % (bbig,), function='compare_bures_similarity')
+    for n_cond in bbig:
+        for kind, kind2 in (('euclid', 'euclid'), ('euclid-lowrank', 'euclid')):
+            bd.check(orc_bures, dict(seed=13000 + n_cond, n_cond=n_cond, n1=2, n2=3, kind=kind, kind2=kind2), 'many-conditions',
+                     function='_bures_similarity_first_way')
+    bd.check(orc_bures, dict(seed=13500, n_cond=5, n1=2, n2=2, kind='euclid', rows1=[0, 1, 0], rows2=[1, 1, 0, 1]), 'repeated-rdms',
+             function='_bures_similarity_first_way')
+    bd.done()
+    bds.append(bd)
+
+    # ---- units: the same RDMs / the same sigma_k multiplied by 1e-26 .. 1e12 ---------------------------------------------------------
+    units = ((1e-12, 1e-12), (1e-26, 1e-26), (1e6, 1e6), (1e12, 1e12), (1e-20, 1e6), (1e12, 1e-12))
+    sunits = (1e-12, 1e-6, 1e6, 1e12)
+
+    def unit_class(sa, sb):
+        return 'tiny-units' if max(sa, sb) < 1 else ('huge-units' if min(sa, sb) > 1 else 'mixed-units')
+
+    uconds = (4, 5, 7) if thorough else (5,)
+    bd = Bounded(run, 'C03/scale', 'C03/compare/oracle/invariance-under-units',
+                 'every measure on seeded stacks (2 x 3 RDMs, %s conditions, %d seed(s)) whose two stacks are multiplied by %s (squared '
+                 'Bures metric: the pairs with equal factors, result divided by the factor), whitened measures also with sigma_k (vector / '
+                 'wishart / ar1) multiplied by %s; expected: the definition on the unscaled stacks; tolerances as in the definition domains'
+                 % (uconds, 2 if thorough else 1, units, sunits), function='compare')
+    for seed in range(2 if thorough else 1):
+        for n_cond in uconds:
+            for ui, (sa, sb) in enumerate(units):
+                for m in ALL:
+                    if m in BURES:
+                        if m == 'bures_metric' and sa != sb:
+                            continue
+                        for kind in ('euclid', 'euclid-lowrank'):
+                            bd.check(orc_scale, dict(seed=14000 + 100 * seed + n_cond, n_cond=n_cond, n1=2, n2=3, kind=kind, method=m,
+                                                     scale1=sa, scale2=sb), unit_class(sa, sb), function=FUNC[m])
+                    elif m in WHITENED:
+                        for gi, sg in enumerate(('none', 'vector', 'wishart')):
+                            case = dict(seed=14200 + 100 * seed + n_cond + gi, n_cond=n_cond, n1=2, n2=3, kind='real', method=m, sigma=sg,
+                                        scale1=sa, scale2=sb)
+                            if sg != 'none' and ui % 2:
+                                case['sigma_scale'] = sunits[(ui + gi) % len(sunits)]
+                            bd.check(orc_scale, case, unit_class(sa, sb), function=FUNC[m])
+                    else:
+                        for ki, kind in enumerate(('real', 'ties')):
+                            bd.check(orc_scale, dict(seed=14400 + 100 * seed + n_cond + ki, n_cond=n_cond, n1=2, n2=3, kind=kind, method=m,
+                                                     scale1=sa, scale2=sb), unit_class(sa, sb), function=FUNC[m])
+            for m in WHITENED:      # only sigma_k in other units
+                for gi, sg in enumerate(('vector', 'wishart', 'ar1', 'diag-matrix')):
+                    for sc in sunits:
+                        bd.check(orc_scale, dict(seed=14600 + 100 * seed + n_cond + gi, n_cond=n_cond, n1=2, n2=3, kind='positive', method=m,
+                                                 sigma=sg, sigma_scale=sc), 'sigma_k-units', function='_cosine_cov_weighted_slow')
+    bd.done()
+    bds.append(bd)
+
+    sunit3 = ((1e-20, 1e-20), (1e9, 1e9), (1e-15, 1e6))
+    for orc, name in ((orc_symmetry, 'symmetry'), (orc_self, 'self-similarity'), (orc_range, 'range'), (orc_permutation, 'joint-condition-permutation')):
+        bd = Bounded(run, orc.oracle_name + '[units]', f'C03/compare/oracle/{name}',
+                     'the structural clause on the case families of the structural domains (%s conditions) with the two stacks multiplied '
+                     'by %s (rotating), sigma_k of the whitened measures by 1e-9 / 1e6; permutation: one seeded permutation' %
+                     ((4, 6) if thorough else (4,), sunit3), function='compare')
+        for k, (case, ic) in enumerate(structural_cases(1, (4, 6) if thorough else (4,))):
+            sa, sb = sunit3[k % 3]
+            case = dict(case, scale1=sa, scale2=sb)
+            if case.get('sigma', 'none') != 'none':
+                case['sigma_scale'] = (1e-9, 1e6)[k % 2]
+            if orc is orc_permutation:
+                case['perm'] = [int(t) for t in np.random.RandomState(case['seed'] + 3).permutation(case['n_cond'])]
+                if case['perm'] == sorted(case['perm']):
+                    case['perm'] = case['perm'][::-1]
+            bd.check(orc, case, unit_class(sa, sb), function=FUNC[case['method']])
+        bd.done()
+        bds.append(bd)
+
+    # ---- typed data --------------------------------------------------------------------------------------------------------------
+    typed = (('uint8', 'uint8', 'u8', 'uint-dtype'), ('int8', 'int8', 'i8', 'small-int-dtype'), ('int16', 'int16', 'i16', 'small-int-dtype'),
+             ('int32', 'int32', 'i32', 'small-int-dtype'), ('float32', 'float32', 'quarter', 'float32'), ('bool', 'bool', 'binary', 'bool-dtype'),
+             ('int16', 'float64', 'i16', 'mixed-dtype'), ('uint8', 'int64', 'u8', 'mixed-dtype'), ('float64', 'float32', 'quarter', 'mixed-dtype'))
+    typed_bures = (('int64', 'int64', 'euclid-int', 'int-dtype'), ('int8', 'int8', 'euclid-int', 'small-int-dtype'),
+                   ('int16', 'int32', 'euclid-int', 'mixed-dtype'), ('float32', 'float32', 'euclid-int', 'float32'),
+                   ('float64', 'int64', 'euclid-int', 'mixed-dtype'))
+    tconds = (4, 5, 6) if thorough else (5,)
+    bd = Bounded(run, 'C03/input-forms[typed]', 'C03/compare/oracle/ndarray-vs-RDMs',
+                 'all input forms of the input-forms domain with typed stacks (first x second stack): %s for the non-Bures measures (values '
+                 'over the whole range of the integer type; multiples of 1/4 for float32; 0/1 for bool), %s for the Bures measures (integer '
+                 'squared lattice distances); whitened measures with sigma_k none / wishart and with int64 variance vector, int64 matrix, '
+                 'float32 matrix; %s conditions; expected: the definition on the same values as float64 (tolerance 1e-5 with float32 data)'
+                 % ([t[:2] for t in typed], [t[:2] for t in typed_bures], tconds), function='_parse_input_rdms')
+    for n_cond in tconds:
+        for ti, (dt1, dt2, kind, ic) in enumerate(typed):
+            for m in ALL:
+                if m in BURES:
+                    continue
+                sgs = (('none', 'wishart') if thorough or ti % 2 else ('wishart',)) if m in WHITENED else ('none',)
+                for sg in sgs:
+                    case = dict(seed=15000 + 10 * n_cond + ti, n_cond=n_cond, n1=2, n2=3, kind=kind, method=m, sigma=sg, dtype=dt1, dtype2=dt2)
+                    bd.check(orc_input_forms, case, ic, function=FUNC[m])
+        for ti, (dt1, dt2, kind, ic) in enumerate(typed_bures):
+            for m in BURES:
+                case = dict(seed=15200 + 10 * n_cond + ti, n_cond=n_cond, n1=2, n2=3, kind=kind, method=m, sigma='none', dtype=dt1, dtype2=dt2)
+                bd.check(orc_input_forms, case, ic, function=FUNC[m])
+        for m in WHITENED:
+            for sg, sdt in (('vector-int', 'int64'), ('matrix-int', 'int64'), ('wishart', 'float32'), ('vector-int', 'uint8')):
+                for dt, kind in (('float64', 'real'), ('int16', 'i16')):
+                    case = dict(seed=15400 + n_cond, n_cond=n_cond, n1=2, n2=3, kind=kind, method=m, sigma=sg, dtype=dt, sigma_dtype=sdt)
+                    bd.check(orc_input_forms, case, 'sigma_k-dtype', function='_cosine_cov_weighted')
+        if False:  # pending triage: uint-dtype,bures / bool-dtype,bures
+            for m in BURES:
+                for dt1, dt2, kind, ic in (('uint8', 'uint8', 'euclid-int', 'uint-dtype,bures'), ('uint16', 'float64', 'euclid-int', 'uint-dtype,bures'),
+                                           ('bool', 'bool', 'categorical', 'bool-dtype,bures')):
+                    case = dict(seed=15300 + n_cond, n_cond=n_cond, n1=2, n2=2, kind=kind, method=m, sigma='none', dtype=dt1, dtype2=dt2)
+                    bd.check(orc_input_forms, case, ic, function=FUNC[m])
+    bd.done()
+    bds.append(bd)
+
+    tdt = ('uint8', 'int16', 'float32')
+    bd = Bounded(run, 'C03/rank-exhaustive[typed]', 'C03/compare/oracle/rank-measures-all-weak-orders',
+                 'ordered pairs (a, b) of weak orders of n entries given as the levels 0..n-1 in dtype %s: ALL pairs for n = 3%s; methods '
+                 '%s, both argument orders' % (tdt, ' and n = 4' if thorough else '; n = 4: a over the 8 non-decreasing weak orders x ALL b, '
+                                               'uint8 and float32', RANK), exhaustive=thorough, function='compare')
+    for n in (3, 4):
+        for dt in tdt:
+            if n == 4 and dt == 'int16' and not thorough:
+                continue
+            for w in (_weak_orders(n) if thorough or n == 3 else _sorted_weak_orders(n)):
+                for m in RANK:
+                    case = dict(n=n, a=list(w), method=m, swap=True, dtype=dt)
+                    if m == 'spearman':
+                        case['skip_constant'] = True
+                    bd.check(orc_rank_exhaustive, case, 'weak-orders,' + ('float32' if dt == 'float32' else 'int-dtype'), function=FUNC[m])
+    bd.done()
+    bds.append(bd)
+
+    # ---- call sequences ------------------------------------------------------------------------------------------------------------
+    bd = Bounded(run, 'C03/purity', 'C03/compare/oracle/result-is-a-function-of-the-values',
+                 'every measure (whitened: sigma_k none / wishart / vector) on ndarray x ndarray, RDMs x RDMs, ndarray x RDMs: inputs '
+                 'bitwise unchanged, second identical call bitwise equal, other stacks of the same shape give their own measures, held '
+                 'results unchanged by later calls, overwriting a returned matrix does not affect later calls; Euclidean-embeddable '
+                 'stacks on 5 conditions%s' % (' and tied stacks on 4 conditions (without Bures)' if thorough else '',),
+                 function='compare')
+    for m in ALL:
+        for fi, form in enumerate(('array', 'rdms', 'mixed')):
+            for kind, n_cond in ((('euclid', 5), ('ties', 4)) if thorough else (('euclid', 5),)):
+                if m in BURES and kind != 'euclid':
+                    continue
+                for sg in (('none', 'wishart', 'vector') if m in WHITENED else ('none',)):
+                    bd.check(orc_purity, dict(seed=16000 + fi, n_cond=n_cond, n1=2, n2=3, kind=kind, sigma=sg, method=m, form=form), form,
+                             function=FUNC[m])
+    bd.done()
+    bds.append(bd)
+
+    # ---- environment ---------------------------------------------------------------------------------------------------------------
+    envs = (([1, 987654321], 'wishart'), ([2, 31337], 'vector'), ([4294967295], 'none')) if thorough else (([1, 987654321], 'wishart'),)
+    bd = Bounded(run, 'C03/fresh-interpreter', 'C03/compare/oracle/new-interpreter-other-hash-seed',
+                 'all 11 measures (ndarray and RDMs inputs, Euclidean-embeddable stacks 2 x 3 on 5 conditions) computed in new '
+                 'interpreters started with PYTHONHASHSEED in %s (this process: %s): the definition, and the numbers of this process to 1e-12'
+                 % ([e[0] for e in envs], os.environ.get('PYTHONHASHSEED')), function='compare')
+    for ei, (hs, sg) in enumerate(envs):
+        bd.check(orc_fresh_interpreter, dict(seed=17000 + ei, n_cond=5, n1=2, n2=3, kind='euclid', sigma=sg, hashseeds=hs), 'hash-seed',
+                 function='compare')
     bd.done()
     bds.append(bd)
     return bds
